@@ -34,6 +34,10 @@ func (w *world) receiptRequest(actor, n int, r *rand.Rand) {
 	switch r.Intn(6) {
 	case 0, 1:
 		pl, shape = newPlan("message", replySpec{"receipt", "now"}), "receipt"
+		if r.Intn(2) == 0 {
+			pl.fast = true
+			shape = "receipt-from-fast-peer"
+		}
 	case 2:
 		pl, cancelAt, shape = newPlan("message"), "seen", "noreceipt+cancel"
 	case 3, 4:
@@ -216,7 +220,7 @@ var _ = ctrl.New
 // Prop returns the C06 check.
 func Prop() *core.Prop {
 	req := []string{"stress_histories", "sentinels_answered", "routed_to_caller", "routed_to_handler", "porcupine_partitions",
-		"receipts_acknowledged", "receipts_cancelled", "forced_scenarios"}
+		"receipts_acknowledged", "receipts_cancelled", "forced_scenarios", "fast_peer_holds", "fast_peer_answer_processed_while_sender_held"}
 	for _, v := range vias {
 		req = append(req, "requests:"+v.name)
 	}
